@@ -383,9 +383,13 @@ class RenderContext:
                 loop_iteration_carry=loop_iteration_carry,
                 local_namespace_carry=self.get_size_of_locals(),
             )
-            # This might need to be generalized so the caller can specify which
-            # tag namespaces need to be copied.
-            ctx.tag_namespace["extends"] = self.tag_namespace["extends"]
+            # A block is part of the page it is rendered on. It sees the macros,
+            # cycles, loop stop indexes and counters of the enclosing template.
+            ctx.tag_namespace = self.tag_namespace
+            ctx.counters = self.counters
+            ctx.scope = ReadOnlyChainMap(
+                ctx.locals, ctx.globals, builtin, ctx.counters
+            )
         else:
             ctx = self.__class__(
                 template or self.template,
